@@ -356,7 +356,12 @@ class Application(MutableMapping[str | AppKey[Any], Any]):
         Should be called after shutdown()
         """
         if self.on_cleanup.frozen:
-            await self.on_cleanup.send(self)
+            try:
+                await self.on_cleanup.send(self)
+            finally:
+                # The signal stops at the first receiver that raises: make sure
+                # the remaining contexts (e.g. of sub-applications) are exited.
+                await self._exit_started_contexts()
         else:
             # If an exception occurs in startup, ensure cleanup contexts are completed.
             await self._exit_started_contexts()
@@ -456,7 +461,9 @@ class CleanupContext(FrozenList[_CleanupContextCallable]):
 
     async def _on_cleanup(self, app: Application) -> None:
         errors = []
-        for it in reversed(self._exits):
+        while self._exits:
+            # Forget the context first, so that it is never exited twice.
+            it = self._exits.pop()
             try:
                 await it.__aexit__(None, None, None)
             except (Exception, asyncio.CancelledError) as exc:
